@@ -4,7 +4,7 @@
    admissible St p := 0 < bits St /\ 2 <= p <= tmax St          (p fits the element type; implied by p <= maxCardinality)
    in_range T y   :=  tmin T <= y <= tmax T                     (y is a value of the C type T) *)
 From Coq Require Import ZArith Bool.
-From C04 Require Import Model ProofsBase ProofsIntegral ProofsRings Redc ProofsMont.
+From C04 Require Import Model ProofsBase ProofsIntegral ProofsRings Redc ProofsMont ProofsExtended.
 Local Open Scope Z_scope.
 
 (* ---- Modular<S, C>, integral storage (modular-integral.inl) ---- *)
@@ -123,6 +123,28 @@ Theorem C04_extended_specialised_sources : forall prec p, 2 <= p -> forall s a,
   ex_src_ok prec s a -> exists r, ex_init prec p s a = Some r /\ residue p a r.
 Proof. exact ex_init_specialised_correct. Qed.
 Print Assumptions C04_extended_specialised_sources.
+
+(* ---- ModularExtended<float|double>: the generic template  r = Caster<Element>(a); reduce(r)  (narrow native sources, long long),
+        reduce = quotient estimate with the ROUNDED 1/p and the ROUNDED product, exact fma remainder, ONE correction step.
+        ex_tail prec p a = a - floor(rn(a * rn(1/p))) * p  is the value handed to `if (a >= _p) a -= _p; else if (a < 0) a += _p;` ---- *)
+Theorem C04_extended_reduce_one_correction_step_suffices : forall prec p a, 1 < prec -> 2 <= p <= 2 ^ (prec - 1) -> Z.abs a < 2 ^ prec ->
+  - p <= ex_tail prec p a < 2 * p /\ residue p a (ex_reduce prec p a).
+Proof. exact ex_reduce_full. Qed.
+Print Assumptions C04_extended_reduce_one_correction_step_suffices.
+Theorem C04_extended_generic_sources : forall prec p s a, 1 < prec -> 2 <= p <= 2 ^ (prec - 1) -> ex_generic_ok prec s a ->
+  exists r, ex_init prec p s a = Some r /\ residue p a r.
+Proof. exact ex_init_generic_correct. Qed.
+Print Assumptions C04_extended_generic_sources.
+(* the upper comparison of the tail must be `>=`: the tail value IS p for an exact multiple of p (p = 49, a = 49, double) *)
+Theorem C04_extended_reduce_upper_comparison_must_be_ge : exists p a, 2 <= p <= 2 ^ 50 - 1 /\ 0 < a < 2 ^ 32 /\ ex_tail 53 p a = p /\ a mod p = 0.
+Proof. exact ex_ge_needed. Qed.
+Print Assumptions C04_extended_reduce_upper_comparison_must_be_ge.
+Theorem C04_extended_reduce_tail_attains_p : ex_tail 53 49 49 = 49 /\ ex_tail 53 75 (-2250) = 75 /\ ex_tail 53 32749 32749 = 32749 /\ ex_tail 24 41 41 = 41 /\ ex_tail 24 7 (-21) = 7.
+Proof. exact ex_tail_attains_p. Qed.
+Print Assumptions C04_extended_reduce_tail_attains_p.
+Theorem C04_extended_reduce_tail_attains_negative : ex_tail 53 5 9007199254740989 = -1 /\ ex_tail 53 3 (-9007199254740991) = -1.
+Proof. exact ex_tail_attains_negative. Qed.
+Print Assumptions C04_extended_reduce_tail_attains_negative.
 
 (* ---- Montgomery<int32_t> (hypothesis-free: the 32-bit redc is Montgomery reduction, _nim is right for every odd p in 3..40503
         by a complete kernel sweep, B = 2^16) ---- *)
